@@ -154,3 +154,12 @@ PROPS["C04"] = dict(
     assumptions=["virtual clock injected through circuitbreaker.VerifWithClock (build tag verif); phase B starts only when nothing admitted earlier is in flight, as the property's quantifier says",
                  "the OnOpen listener runs under the breaker's lock, so a flag it sets is ordered before every later admission decision"],
 )
+
+PROPS["C15"] = dict(
+    pkg="./props/c15_async",
+    tests=[REGRESS(), T("TestSyncAsyncAgree", (6, 3000), (8, 60000)), T("TestFutureProtocol", (8, 1500), (8, 40000))],
+    replay_reps=300,
+    rule="(differential) rapid-generated composition scenarios run twice on fresh instances, once through the four synchronous entry points and once through the four asynchronous ones; results, errors and invocation counts must agree step by step; non-trivial = some policy acted. (protocol) generated scenarios with every attempt parked on a harness gate, 1..16 reader goroutines issuing generated sequences of IsDone / non-blocking Done / Get / Result / Error / blocking Done before and after completion, completion listeners logging, and Cancel() before the start, while attempt k is parked, during a 1 h retry delay, or after completion; non-trivial = at least 2 readers were blocked before completion, or a Cancel landed between the first entry and completion; distinct = the scenario",
+    assumptions=["IsDone()==true slightly before Done is closed is not flagged (the statement's 'exactly' is checked in the direction Done closed => IsDone true)",
+                 "Cancel is only required to surface as ErrExecutionCanceled when a retry or hedge policy is in the stack, as the property says"],
+)
